@@ -38,7 +38,7 @@ try:
     assert a.returncode == 0, a.stderr + a.stdout
     for c in checks:
         env = dict(os.environ, PYVC_REPO=T, PYVC_EVIDENCE_DIR=T + "/ev", PYVC_REPLAY_DIR="/tmp/seedreplays")
-        r = sh(f"cd /verif && ./check {c}", env=env)
+        r = sh(f"cd {os.environ.get('VERIF_RUN_DIR', '/verif')} && ./check {c}", env=env)
         lines = [l for l in r.stdout.splitlines() if l.startswith(("VIOLATION", "UNDECIDED", "CHECKER"))][:4]
         det[c] = dict(exit=r.returncode, lines=lines)
 finally:
